@@ -2932,6 +2932,223 @@ fn check_typed(t: &TCase, rec: &mut Rec) -> CaseResult {
     Ok(())
 }
 
+// ---- operators that ask WHICH parameters were given: the literal by substitution -----------
+//
+// The reference expander spells caller arguments out on every leaf, which changes the set of keys
+// "given" on the step. Here the caller passes only names the body binds, so the meaning of the
+// invocation is the body step with each `key=$n`, `key=$n(d)`, `key=(d)` replaced by
+// `key=<resolved value>` and nothing else: the same keys are given on both sides.
+
+struct GSlot {
+    key: &'static str,
+    /// the default written in the body (and the literal of form 1)
+    d: &'static str,
+    /// another legal value
+    o: &'static str,
+}
+
+struct GSite {
+    op: &'static str,
+    fixed: &'static str,
+    slots: [GSlot; 2],
+    grid: bool,
+}
+
+const fn gs(key: &'static str, d: &'static str, o: &'static str) -> GSlot {
+    GSlot { key, d, o }
+}
+
+const MOLO: &str = "dx=-87 dy=-96 dz=-120";
+const GSITES: &[GSite] = &[
+    // ellps_0 + ellps_1 (da, df derived from the pair) vs ellps + da/df vs defaults; ellps overrides ellps_0
+    GSite { op: "molodensky", fixed: MOLO, slots: [gs("ellps_0", "intl", "bessel"), gs("ellps_1", "GRS80", "WGS84")], grid: false },
+    GSite { op: "molodensky", fixed: "dx=-87 dy=-96 dz=-120 abridged", slots: [gs("ellps_1", "bessel", "GRS80"), gs("ellps_0", "GRS80", "intl")], grid: false },
+    GSite { op: "molodensky", fixed: "dx=-87 dy=-96 dz=-120 ellps_1=WGS84", slots: [gs("ellps", "bessel", "intl"), gs("ellps_0", "intl", "bessel")], grid: false },
+    GSite { op: "molodensky", fixed: "dx=-87 dy=-96 dz=-120 ellps_0=intl", slots: [gs("ellps", "GRS80", "bessel"), gs("ellps_1", "WGS84", "GRS80")], grid: false },
+    GSite { op: "molodensky", fixed: "dx=10 dy=20 dz=30 df=1.4e-5", slots: [gs("ellps", "intl", "GRS80"), gs("da", "251", "0")], grid: false },
+    // `ellps` given or the default
+    GSite { op: "utm", fixed: "", slots: [gs("ellps", "intl", "GRS80"), gs("zone", "32", "33")], grid: false },
+    GSite { op: "tmerc", fixed: "lon_0=9", slots: [gs("ellps", "GRS80", "bessel"), gs("k_0", "1", "0.9996")], grid: false },
+    // second standard parallel / latitude of origin present or absent
+    GSite { op: "lcc", fixed: "lat_1=33 lon_0=10", slots: [gs("lat_2", "45", "33"), gs("lat_0", "35", "0")], grid: false },
+    GSite { op: "lcc", fixed: "lon_0=10 lat_0=40", slots: [gs("lat_1", "0", "40"), gs("lat_2", "0", "50")], grid: false },
+    // latitude of true scale vs scale factor
+    GSite { op: "merc", fixed: "lon_0=9", slots: [gs("lat_ts", "0", "56"), gs("k_0", "1", "0.9996")], grid: false },
+    // scalar vs list spellings of the same quantity
+    GSite { op: "helmert", fixed: "y=7", slots: [gs("x", "0", "5"), gs("translation", "0,0,0", "1,2,3")], grid: false },
+    GSite { op: "helmert", fixed: "convention=position_vector x=3", slots: [gs("rotation", "0,0,0", "1,2,3"), gs("rx", "0", "4")], grid: false },
+    GSite { op: "helmert", fixed: "z=1", slots: [gs("scale", "0", "2.5"), gs("s", "0", "1.5")], grid: false },
+    GSite { op: "helmert", fixed: "x=1 t_epoch=2000", slots: [gs("velocity", "0,0,0", "0.1,0.2,0.3"), gs("dx", "0", "0.5")], grid: false },
+    // either dt or t_epoch
+    GSite { op: "deformation", fixed: "grids=w.deformation", slots: [gs("dt", "10", "1"), gs("t_epoch", "2000", "2010")], grid: true },
+];
+
+const G_FORMS: usize = 5; // absent, literal, $n, $n(d), (d)
+const G_CALLERS: usize = 3; // none, another value, a value equal to the default
+const G_NESTS: usize = 6; // depth 0, depth 1, depth 2 x {inherited, n=$m, n=$m(v), n=v}
+const G_PER_SITE: usize = (G_FORMS * G_CALLERS) * (G_FORMS * G_CALLERS) * G_NESTS * 2;
+const G_NEST_NAMES: [&str; G_NESTS] = ["depth=0", "depth=1", "depth=2:inherited", "depth=2:n=$m", "depth=2:n=$m(v)", "depth=2:n=v"];
+
+#[derive(Clone, Debug, Serialize, Deserialize)]
+struct GivenCase {
+    ctx: u8,
+    lib: Vec<(String, String)>,
+    invocation: String,
+    /// None: some `$n` without default is given by nobody => an error is expected
+    literal: Option<String>,
+    labels: Vec<String>,
+    /// a default form took its fallback, or the caller's value equals the default
+    fallback: bool,
+}
+
+fn given_n() -> usize {
+    GSITES.len() * G_PER_SITE
+}
+
+fn given_case(i: usize) -> GivenCase {
+    let site = &GSITES[i / G_PER_SITE];
+    let mut r = i % G_PER_SITE;
+    let mut take = |n: usize| {
+        let v = r % n;
+        r /= n;
+        v
+    };
+    let pipeline = take(2) == 1;
+    let nest = take(G_NESTS);
+    let picks = [(take(G_FORMS), take(G_CALLERS)), (take(G_FORMS), take(G_CALLERS))];
+    let mut labels = vec![format!("given:{}", G_NEST_NAMES[nest])];
+    let mut body: Vec<String> = vec![]; // the step as written in the (innermost) body
+    let mut subst: Vec<String> = vec![]; // the step with the bindings substituted
+    let mut outer: Vec<String> = vec![]; // arguments of the outermost invocation
+    let mut inner: Vec<String> = vec![]; // arguments of g:m1 in the body of g:m0 (depth 2)
+    let (mut unresolved, mut fallback) = (false, false);
+    if i % 2 == 1 && !site.fixed.is_empty() {
+        body.push(site.fixed.to_string());
+        subst.push(site.fixed.to_string());
+    }
+    for (si, slot) in site.slots.iter().enumerate() {
+        let (form, caller) = picks[si];
+        // a caller exists below depth 0 only, and passes only names the body binds
+        let caller = if nest == 0 || form < 2 { 0 } else { caller };
+        let name = if form == 4 { slot.key.to_string() } else { format!("n{}", ["a", "b"][si]) };
+        let source = format!("m{}", ["a", "b"][si]); // sorts before `name` when that is not the key
+        let cv = [None, Some(slot.o), Some(slot.d)][caller];
+        if let Some(v) = cv {
+            match nest {
+                1 | 2 => outer.push(format!("{name}={v}")),
+                3 => {
+                    outer.push(format!("{source}={v}"));
+                    inner.push(format!("{name}=${source}"));
+                }
+                4 => inner.push(format!("{name}=${source}({v})")),
+                _ => inner.push(format!("{name}={v}")),
+            }
+        }
+        // the context default ellps=GRS80 is a caller-provided value (see the assumptions)
+        let seen = cv.or(if name == "ellps" { Some("GRS80") } else { None });
+        let k = slot.key;
+        let (written, resolved) = match form {
+            0 => (None, None),
+            1 => (Some(format!("{k}={}", slot.d)), Some(slot.d)),
+            2 => (Some(format!("{k}=${name}")), seen),
+            3 => (Some(format!("{k}=${name}({})", slot.d)), Some(seen.unwrap_or(slot.d))),
+            _ => (Some(format!("{k}=({})", slot.d)), Some(seen.unwrap_or(slot.d))),
+        };
+        if let Some(w) = written {
+            body.push(w);
+            match resolved {
+                Some(v) => subst.push(format!("{k}={v}")),
+                None => unresolved = true,
+            }
+        }
+        fallback |= form >= 3 && resolved == Some(slot.d);
+        labels.push(format!("given:{}.{}:{}", site.op, k, FORM_NAMES[form]));
+        labels.push(format!("given:caller={}", ["none", "other-value", "equal-to-default"][caller]));
+        if form >= 3 {
+            labels.push(format!("given:default-form:{}", if cv.is_none() { "fallback-taken" } else if caller == 2 { "caller-equals-default" } else { "caller-overrides" }));
+        }
+    }
+    if i % 2 == 0 && !site.fixed.is_empty() {
+        body.push(site.fixed.to_string());
+        subst.push(site.fixed.to_string());
+    }
+    let wrap = |args: &[String]| -> String {
+        let step = format!("{} {}", site.op, args.join(" ")).trim_end().to_string();
+        if pipeline { format!("noop | {step}") } else { step }
+    };
+    let with = |name: &str, args: &[String]| format!("{name} {}", args.join(" ")).trim_end().to_string();
+    let (lib, invocation) = match nest {
+        0 => (vec![], wrap(&body)),
+        1 => (vec![("g:m0".to_string(), wrap(&body))], with("g:m0", &outer)),
+        _ => (vec![("g:m0".to_string(), with("g:m1", &inner)), ("g:m1".to_string(), wrap(&body))], with("g:m0", &outer)),
+    };
+    let ctx = if site.grid { 2 } else { (scramble(i) % 3) as u8 };
+    GivenCase { ctx, lib, invocation, literal: if unresolved { None } else { Some(wrap(&subst)) }, labels, fallback }
+}
+
+fn given_with<C: Prep>(g: &GivenCase, _rec: &mut Rec) -> Result<&'static str, Failure> {
+    let lib: String = g.lib.iter().map(|(n, b)| format!("    {n} = {b}\n")).collect();
+    let mut ctx = C::new();
+    ctx.prep();
+    for (n, b) in &g.lib {
+        ctx.register_resource(n, b);
+    }
+    let got = instantiate(&mut ctx, &g.invocation);
+    let show = |o: &Outcome| match o {
+        Outcome::Ok(_) => "Ok".to_string(),
+        Outcome::Err(e) => format!("Err({e})"),
+        Outcome::Panic(p) => format!("panic {} at {}:{}", p.msg, p.file, p.line),
+    };
+    let Some(literal) = &g.literal else {
+        return match got {
+            Outcome::Err(_) => Ok("error-expected"),
+            other => vfail!("unresolved-reference-accepted", "library:\n{lib}  '{}' gives {} although a `$name` without default is given by nobody", g.invocation, show(&other)),
+        };
+    };
+    let mut lctx = C::new();
+    lctx.prep();
+    let want = instantiate(&mut lctx, literal);
+    let (h, hl) = match (&got, &want) {
+        (Outcome::Ok(h), Outcome::Ok(hl)) => (*h, *hl),
+        (Outcome::Err(_), Outcome::Err(_)) => return Ok("both-error"),
+        _ => vfail!("given-substitution-outcome-mismatch", "library:\n{lib}  invocation '{}' -> {}\n  substituted '{literal}' -> {}", g.invocation, show(&got), show(&want)),
+    };
+    for fwd in [true, false] {
+        let (sa, da) = behave(&ctx, h, fwd);
+        let (sb, db) = behave(&lctx, hl, fwd);
+        let diff = first_bits_diff(&da, &db);
+        if sa != sb || diff.is_some() {
+            let k = diff.unwrap_or(0).min(3);
+            vfail!(
+                "given-substitution-mismatch",
+                "library:\n{lib}  '{}' applied {:?} differs from its body with the arguments substituted, '{literal}'\n  {sa} vs {sb}\n  probe {:?}: {} vs {}",
+                g.invocation, dir_of(fwd), PROBES[k], fmt_c4(&da[k]), fmt_c4(&db[k])
+            );
+        }
+    }
+    Ok("both-ok")
+}
+
+fn check_given(g: &GivenCase, rec: &mut Rec) -> CaseResult {
+    let outcome = match g.ctx {
+        0 => given_with::<Minimal>(g, rec),
+        1 => given_with::<Plain>(g, rec),
+        _ => given_with::<GridCtx>(g, rec),
+    }?;
+    rec.class(&format!("given:outcome={outcome}"));
+    for l in &g.labels {
+        if l.contains('.') {
+            rec.class(&format!("{l}:{outcome}"));
+        } else {
+            rec.count(l, 1);
+        }
+    }
+    if outcome == "both-ok" && g.fallback {
+        rec.nontrivial(&(&g.lib, &g.invocation));
+    }
+    Ok(())
+}
+
 fn main() {
     let mut run = Run::init("C04");
     selftest();
@@ -2945,7 +3162,7 @@ fn main() {
     run.assume("stack steps appear in sections 'typed-bindings' / 'typed-mixed' only, as balanced programs inside one macro body and never under an inverted invocation (a stack step has no inverse of its own: what it does is decided by the pipeline it is a step of, C03 / C12; such cases are excluded_unspecified); `inv=true` spelling is not generated; the directional modifiers omit_fwd / omit_inv (and their sugar `<` / `>`) are used in sections 'one-way-bodies' and 'one-way-steps' only, and only on steps of a pipeline (a body or invocation text of >= 2 steps): there they are a property of the step relative to the direction its pipeline is run in (Rumination 000/009), so a body run backwards by an inverted invocation omits in the literal's forward direction what it omits in its own inverse direction; a directional modifier on a definition that is a lone operator is not judged (excluded_unspecified); that a flat pipeline honours omit_fwd / omit_inv is taken from the library (C03)");
     run.assume("parameter names are case-sensitive strings of letters (ASCII or not), digits and '_' in any order, other than the keys the library reserves (_name, inv, omit_fwd, omit_inv) and names ending in a subscript digit (documented sugar for _<digit>)");
 
-    run.assume("a value or default is any text the binding syntax can express (established on the unchanged library, which takes all such text literally): no '=', no white space except after a comma, not empty, not starting with '$' or '(', no parenthesis inside the default of $n(...), no ')' at the end of the default of (...); everything else - commas, colons, '@', '$' and parentheses elsewhere - is part of the value; the other cases are generated but not judged (excluded_unspecified). molodensky is not used (it asks which keys were given on the step itself, which the literal of the reference expander changes by spelling out caller arguments)");
+    run.assume("a value or default is any text the binding syntax can express (established on the unchanged library, which takes all such text literally): no '=', no white space except after a comma, not empty, not starting with '$' or '(', no parenthesis inside the default of $n(...), no ')' at the end of the default of (...); everything else - commas, colons, '@', '$' and parentheses elsewhere - is part of the value; the other cases are generated but not judged (excluded_unspecified). molodensky is used in section 'given-sensitive-bindings' only (it asks which keys were given on the step itself, which the literal of the reference expander changes by spelling out caller arguments; that section builds its literal by substitution instead and lets the caller pass only names the body binds)");
 
     run.enumerate(
         "binding-forms",
@@ -3025,6 +3242,14 @@ fn main() {
         check_typed,
     );
 
+    run.enumerate(
+        "given-sensitive-bindings",
+        "exhaustive: operators whose behaviour depends on WHICH parameters are given, 15 operator x parameter-pair sites (molodensky ellps_0 / ellps_1 / ellps / da in five combinations incl. abridged, utm and tmerc ellps vs the default, lcc lat_2 / lat_0 / lat_1 present or absent, merc lat_ts vs k_0, helmert x vs translation, rotation vs rx, scale vs s, velocity vs dx, deformation dt vs t_epoch) x binding of EACH of the two keys {absent, literal, $n, $n(d), (d)} x the caller's value for each {none => fallback or error, another value, a value EQUAL to the default} x depth 0, 1, 2 (at depth 2 the value inherited, forwarded as n=$m, as n=$m(v) or as a literal) x single-operator / pipeline body; the caller passes only names the body binds, so the oracle is the body step with every binding SUBSTITUTED by its resolved value (key dropped when absent; `$n` given by nobody => Err) and nothing prepended: same Ok / Err, values bit for bit in both directions; non-trivial = both instantiate and a default form took its fallback or met a caller's value equal to it",
+        given_n(),
+        given_case,
+        check_given,
+    );
+
     let n = run.scale(12_000, 240_000);
     run.section(
         "inv-position",
@@ -3073,5 +3298,5 @@ fn main() {
         check_graph,
     );
 
-    run.finish("macro libraries (generated and enumerated) instantiated through Minimal, Plain and a user context, compared with the macro-free literal produced by a reference expander (bit-identical behaviour in both directions, same success/failure; parameter names spanning the lexical order around the keys the library reserves; one-way steps in bodies run forwards and backwards by 0..3 inverted invocations; every binding form crossed with every parameter type - series, lists of texts, texts containing commas, naturals, sexagesimal reals, flags - as literal, default and caller's value through 0..3 nesting levels), plus cyclic / deep / broken resource graphs under a panic guard, a 16 MB stack and a 30 s watchdog");
+    run.finish("macro libraries (generated and enumerated) instantiated through Minimal, Plain and a user context, compared with the macro-free literal produced by a reference expander (bit-identical behaviour in both directions, same success/failure; parameter names spanning the lexical order around the keys the library reserves; one-way steps in bodies run forwards and backwards by 0..3 inverted invocations; every binding form crossed with every parameter type - series, lists of texts, texts containing commas, naturals, sexagesimal reals, flags - as literal, default and caller's value through 0..3 nesting levels; operators that ask which parameters were given - molodensky's ellipsoid pair, ellps vs default, lcc lat_2, merc lat_ts / k_0, helmert scalar vs list spellings, deformation dt / t_epoch - bound through every form at depth 0..2 and compared with the body with its arguments substituted), plus cyclic / deep / broken resource graphs under a panic guard, a 16 MB stack and a 30 s watchdog");
 }
